@@ -200,10 +200,13 @@ static void *tramp(void *p) {
 	schedule(me, "exit");
 	return NULL;
 }
+int vs_fail_create_at;	// > 0: the n-th thread creation of an execution fails with EAGAIN (resource exhaustion), nothing is created
+static int ncreate;
 int vs_create(pthread_t *t, const pthread_attr_t *a, void *(*f)(void *), void *arg) {
 	(void)a;
 	int me = cur;
 	schedule(me, "create");
+	if (++ncreate == vs_fail_create_at) { memset(t, 0xA5, sizeof *t); return EAGAIN; }
 	if (nth == MAXT) fatal("TOO-MANY-THREADS");
 	int id = nth++;
 	th[id].used = 1; th[id].state = ST_RUN; th[id].f = f; th[id].arg = arg; atomic_store(&th[id].sem, 0); th[id].joined = 0;
@@ -224,7 +227,7 @@ int vs_join(pthread_t t, void **r) {
 }
 
 void vs_begin(void) {
-	memset(th, 0, sizeof th); nmtx = 0; ncond = 0; nth = 1; cur = 0; vs_npts = 0; vs_steps = 0; vs_switches = 0; vs_timeouts_fired = 0;
+	memset(th, 0, sizeof th); nmtx = 0; ncond = 0; nth = 1; cur = 0; ncreate = 0; vs_npts = 0; vs_steps = 0; vs_switches = 0; vs_timeouts_fired = 0;
 	th[0].used = 1; th[0].state = ST_RUN; atomic_store(&th[0].sem, 0); in_execution = 1;
 }
 // End of an execution: every created thread must have been joined.
